@@ -399,3 +399,57 @@ func derivedFrom(v, root ssa.Value, seen map[ssa.Value]bool) bool {
 	}
 	return false
 }
+
+// fieldPath decomposes x.a.b.c (through loads, field addresses and single-store
+// local struct variables) into its root value and the field names from the root.
+func fieldPath(v ssa.Value) (ssa.Value, []string) {
+	var names []string
+	for i := 0; i < 40; i++ {
+		switch x := v.(type) {
+		case *ssa.UnOp:
+			if x.Op != token.MUL {
+				return v, names
+			}
+			v = x.X
+		case *ssa.FieldAddr:
+			names = append([]string{fieldOfAddr(x).Name()}, names...)
+			v = x.X
+		case *ssa.Field:
+			st := x.X.Type().Underlying().(*types.Struct)
+			names = append([]string{st.Field(x.Field).Name()}, names...)
+			v = x.X
+		case *ssa.Alloc:
+			// whole-struct stores into the local
+			var whole ssa.Value
+			n := 0
+			for _, r := range *x.Referrers() {
+				if st, ok := r.(*ssa.Store); ok && st.Addr == x {
+					n++
+					whole = st.Val
+				}
+			}
+			if n == 1 {
+				v = whole
+				continue
+			}
+			return v, names
+		case *ssa.ChangeType:
+			v = x.X
+		case *ssa.MakeInterface:
+			v = x.X
+		default:
+			return v, names
+		}
+	}
+	return v, names
+}
+
+// isSnapshotLoad: v is x.(T) of an (*atomic.Value).Load() result.
+func isSnapshotLoad(v ssa.Value) bool {
+	ta, ok := v.(*ssa.TypeAssert)
+	if !ok {
+		return false
+	}
+	call, ok := ta.X.(*ssa.Call)
+	return ok && calleeName(call.Common()) == "(*sync/atomic.Value).Load"
+}
